@@ -8,6 +8,10 @@ theorem inv_stepEnq (s s' : St) (a : Actor) (h : Inv s) (hs : stepEnq s a = some
   unfold stepEnq at hs
   split at hs <;> close_tac h hs
 
+theorem inv_stepCbBegin (s s' : St) (a : Actor) (h : Inv s) (hs : stepCbBegin s a = some s') : Inv s' := by
+  unfold stepCbBegin at hs
+  split at hs <;> close_tac h hs
+
 theorem inv_stepCb (s s' : St) (a : Actor) (vs : List Val) (h : Inv s) (hs : stepCb s a vs = some s') : Inv s' := by
   unfold stepCb at hs
   split at hs <;> close_tac h hs
